@@ -680,7 +680,9 @@ def replay(rec):
     acc = core.Acc(PROPERTY)
     M = model()
     nt = case.get("registry", "float")
-    if site[0] in ("canonical-unit", "compound-unit", "prefixed-unit"):
+    if site[0] == "prefixed-unit":
+        run_prefixed(acc, nt)  # (prefixed units are registered at their first lookup: the whole clause, in its order)
+    elif site[0] in ("canonical-unit", "compound-unit"):
         ureg = regs.default(nt)
         units = {k: (int(v) if "/" not in v and "." not in v else Fraction(v)) for k, v in case["units"].items()}
         check_unit(acc, M, ureg, nt, units, case["spec"], site[0], set(M.prefixes))
@@ -706,3 +708,4 @@ MANIFEST = {
 MANIFEST["text"] += " NumPy scalar and 0-d magnitudes format like the Python number; an empty spec formats exactly as the registry default_format given explicitly, for 10 default formats including '#'-only ones."
 MANIFEST["text"] += ' Units without a dimension (radian, count, percent, steradian) in 11 specs, and every canonical unit alone and over a second in 2 specs, under the three sort functions.'
 MANIFEST["text"] += ' The magnitude default applies alike under D, C, P and H (long and ~) for 5 default formats x 3 separate_format_defaults settings, quantities and measurements.'
+MANIFEST["text"] += ' Every declared prefix (symbol-less ones included) on 4 units under all specs.'
